@@ -13,12 +13,29 @@ import (
 	"os"
 	"os/exec"
 	"path/filepath"
+	"runtime"
 	"strings"
 	"sync"
 	"time"
 
 	"github.com/Ptt-official-app/go-pttbbs/cmsys"
 )
+
+// a payload encoding/binary refuses (int is not fixed-size): BinaryWrite fails inside the critical section
+type c14Bad struct {
+	T uint8
+	V int
+}
+
+func goid() string { // "goroutine 123 [running]:..."
+	var buf [64]byte
+	n := runtime.Stack(buf[:], false)
+	f := strings.Fields(string(buf[:n]))
+	if len(f) >= 2 {
+		return f[1]
+	}
+	return ""
+}
 
 // ------------------------------------------------------------------ worker
 
@@ -37,12 +54,30 @@ func c14Worker() {
 		defer gmu.Unlock()
 		return gates[t]
 	}
+	gids := map[string]int{}
 	cmsys.VerifPointHook = func(name string, data interface{}) {
-		b, ok := data.([]byte)
-		if !ok || len(b) == 0 {
+		if name == "flock.tabled" {
+			// the calling appender holds its process' table entry and is about to call flock(2): report, do not stop
+			gmu.Lock()
+			t, ok := gids[goid()]
+			gmu.Unlock()
+			if ok {
+				emit(fmt.Sprintf("ev %d 10", t))
+			}
 			return
 		}
-		t := int(b[0]) - 1
+		t := -1
+		switch d := data.(type) {
+		case []byte:
+			if len(d) > 0 {
+				t = int(d[0]) - 1
+			}
+		case *c14Bad:
+			t = int(d.T) - 1
+		}
+		if t < 0 {
+			return
+		}
 		g := gate(t)
 		if g == nil {
 			return
@@ -68,18 +103,26 @@ func c14Worker() {
 			file := f[1]
 			sz := int(ai(f[2]))
 			for _, ts := range f[3:] {
-				t := int(ai(ts))
+				isBad := strings.HasSuffix(ts, "b")
+				t := int(ai(strings.TrimSuffix(ts, "b")))
 				g := make(chan struct{})
 				gmu.Lock()
 				gates[t] = g
 				gmu.Unlock()
 				go func(t int, g chan struct{}) {
+					gmu.Lock()
+					gids[goid()] = t
+					gmu.Unlock()
 					<-g
 					rec := make([]byte, sz)
 					for i := range rec {
 						rec[i] = byte(t + 1)
 					}
-					idx, err := cmsys.AppendRecord(file, rec, uintptr(sz))
+					var data interface{} = rec
+					if isBad {
+						data = &c14Bad{T: uint8(t + 1)}
+					}
+					idx, err := cmsys.AppendRecord(file, data, uintptr(sz))
 					if err != nil {
 						code := 2
 						if err == cmsys.ErrPttLock {
@@ -116,9 +159,11 @@ func c14Run(args [][]string) []string {
 	sz := int(ai(args[1][0]))
 	ninit := int(ai(args[1][1]))
 	procs := make([]int, len(args[2]))
+	bad := make([]bool, len(args[2]))
 	nproc := 0
 	for i, p := range args[2] {
-		procs[i] = int(ai(p))
+		procs[i] = int(ai(p)) % 100
+		bad[i] = ai(p) >= 100
 		if procs[i]+1 > nproc {
 			nproc = procs[i] + 1
 		}
@@ -170,7 +215,11 @@ func c14Run(args [][]string) []string {
 		tids := []string{}
 		for t := 0; t < n; t++ {
 			if procs[t] == p {
-				tids = append(tids, fmt.Sprint(t))
+				if bad[t] {
+					tids = append(tids, fmt.Sprint(t)+"b")
+				} else {
+					tids = append(tids, fmt.Sprint(t))
+				}
 			}
 		}
 		fmt.Fprintf(in, "init %s %d %s\n", file, sz, strings.Join(tids, " "))
@@ -202,6 +251,8 @@ func c14Run(args [][]string) []string {
 	hang := false
 	record := func(e c14Event) {
 		switch e.code {
+		case 10:
+			pending[e.t] = true // holds the table entry, not (yet) the flock
 		case 1, 2, 3:
 			phase[e.t] = e.code
 			pending[e.t] = false
@@ -234,14 +285,6 @@ func c14Run(args [][]string) []string {
 		}
 		return false
 	}
-	tableTaken := func(t int) bool { // somebody in the same process is inside the call
-		for u := 0; u < n; u++ {
-			if u != t && procs[u] == procs[t] && ((phase[u] >= 1 && phase[u] <= 3) || pending[u]) {
-				return true
-			}
-		}
-		return false
-	}
 	anyPending := func() bool {
 		for _, p := range pending {
 			if p {
@@ -255,17 +298,28 @@ func c14Run(args [][]string) []string {
 			return
 		}
 		fmt.Fprintf(ws[procs[t]].in, "go %d\n", t)
-		if phase[t] == 0 && !tableTaken(t) && holderElsewhere(t) {
-			// it takes its process' table entry and blocks in flock(LOCK_EX)
-			pending[t] = true
-			trace = append(trace, fmt.Sprint(t), "10")
-			// give it time to really reach the flock before anything else moves
-			time.Sleep(15 * time.Millisecond)
-			return
+		if phase[t] == 0 {
+			// first event: it either took its process' table entry (10) or was refused at once (5)
+			for {
+				e, ok := nextEvent()
+				if !ok {
+					return
+				}
+				record(e)
+				if e.t == t {
+					if e.code != 10 {
+						return
+					}
+					break
+				}
+			}
+			if holderElsewhere(t) {
+				return // it now blocks in flock(LOCK_EX) until the holder (another process) releases
+			}
 		}
 		// wait for this thread's next event; when it gives the flock back and threads are queued for it,
 		// exactly one of them obtains it: that event is ordered after the release
-		needLock := phase[t] == 3 && anyPending()
+		needLock := (phase[t] == 3 || (phase[t] == 2 && bad[t])) && anyPending()
 		var mine, lock *c14Event
 		for mine == nil || (needLock && lock == nil) {
 			e, ok := nextEvent()
@@ -317,8 +371,8 @@ func c14Run(args [][]string) []string {
 				if !ok {
 					return []string{"2"}
 				}
-				if e.t != n {
-					continue // "ready" is not an event; anything else would be a stray
+				if e.t != n || e.code == 10 {
+					continue // the table-entry notice is followed by the real schedule point
 				}
 				if e.code == 4 {
 					lateCode, lateIdx = 1, e.idx
